@@ -320,17 +320,16 @@ def str_eq(a, b):
     sa, sb = segs_of(a), segs_of(b)
     # a canonical integer rendering against a concrete numeral
     for x, y in ((sa, b), (sb, a)):
-        if len(x) == 1 and isinstance(x[0], Fmt) and isinstance(y, str) and x[0].width == 0:
+        if len(x) == 1 and isinstance(x[0], Fmt) and isinstance(y, str):
             f = x[0]
             try:
-                if f.conv == 'd':
-                    ok = y == str(int(y)) if y.lstrip('-').isdigit() else False
-                    return simp(zint(f.val) == int(y)) if ok else False
-                n = int(y, 16)
-                ok = y == (('%X' if f.conv == 'X' else '%x') % n)
-                return simp(zint(f.val) == n) if ok else False
+                n = int(y, 10 if f.conv == 'd' else 16)
             except ValueError:
                 return False
+            if n < 0:
+                return False
+            canon = (('%d' if f.conv == 'd' else '%X' if f.conv == 'X' else '%x') % n).rjust(f.width, f.fill)
+            return simp(zint(f.val) == n) if canon == y else False
     ca = all(isinstance(s, int) or is_symint(s) for s in sa)
     cb = all(isinstance(s, int) or is_symint(s) for s in sb)
     if ca and cb:
